@@ -602,7 +602,13 @@ impl<'a> Gen<'a> {
         }
         let d = d - 1;
         loop {
-            match self.rng.below(14) {
+            match self.rng.below(15) {
+                14 => {
+                    if self.cfg.f_template {
+                        self.tag("tagged-template");
+                        return format!("__tag`a${{{}}}b${{{}}}c`", self.num(d), self.str_(d));
+                    }
+                }
                 0 => {
                     if self.cfg.f_template {
                         return format!("`${{{}}}-${{{}}}`", self.num(d), self.str_(d));
@@ -1634,7 +1640,9 @@ impl<'a> Gen<'a> {
         let main = Node::block(format!("async function {p}main(): Promise<any> {{"), body, "}");
         let mut kids = Vec::new();
         kids.push(Node::leaf(hole_prelude(variant, &self.answers)));
-        kids.push(Node::leaf("const __log: string[] = [];"));
+        kids.push(Node::leaf(
+            "const __log: string[] = [];\nconst __tag = (s: any, ...v: any[]): string => s.join(\"_\") + \":\" + v.map((x: any) => String(x)).join(\",\") + \":\" + s.raw.length;",
+        ));
         kids.push(Node::leaf(SHOW_PRELUDE));
         kids.extend(decls);
         kids.push(main);
